@@ -42,6 +42,11 @@ func GnmiTypedValueToNativeType(gnmiTv *gnmi.TypedValue, modelPath *adminapi.Rea
 	case *gnmi.TypedValue_BytesVal:
 		return configapi.NewTypedValueBytes(v.BytesVal), nil
 	case *gnmi.TypedValue_DecimalVal:
+		// decimal64 has 1..18 fraction digits (RFC 7950); larger precisions overflow the int64 arithmetic of the value's
+		// string form (a division by zero from 64 on) and do not fit the uint8 they are stored in
+		if v.DecimalVal.Precision > 18 {
+			return nil, errors.NewInvalid("decimal64 precision %d is out of range (0..18)", v.DecimalVal.Precision)
+		}
 		return configapi.NewTypedValueDecimal(v.DecimalVal.Digits, uint8(v.DecimalVal.Precision)), nil
 	case *gnmi.TypedValue_FloatVal:
 		// NaN is not a value of any YANG type and big.NewFloat panics on it
